@@ -47,9 +47,9 @@ func randOpts(r *Rng, thorough bool) wopts {
 
 // a data token of about n bytes whose kind is cheap enough for the level
 func dataTok(r *Rng, n int, lvl int) string {
-	kinds := []int{0, 1, 2, 3, 4, 5}
+	kinds := []int{0, 1, 2, 3, 4, 5, 6, 7}
 	if lvl >= 4096 {
-		kinds = []int{0, 2, 5, 0}
+		kinds = []int{0, 2, 5, 6, 7}
 		if n > 100000 {
 			n = 100000
 		}
@@ -347,7 +347,7 @@ func someFrames(r *Rng, n int, thorough bool) []builtFrame {
 			if o.leg == 1 {
 				sz = r.Pick([]int{0, 1, 1000, 70000, 200000})
 			}
-			content := genContent(r.Intn(6), r.Intn(1000), sz)
+			content := genContent(r.Intn(8), r.Intn(1000), sz)
 			bf.frame = realFrame(content, o)
 			bf.bs = o.bs
 			bf.legacy = o.leg == 1
